@@ -866,7 +866,7 @@ func genLeaf(rt *rapid.T, dom int) Node {
 }
 
 func genNode(rt *rapid.T, depth, dom int) Node {
-	if depth <= 0 || rapid.IntRange(0, 9).Draw(rt, "is-leaf") < 4 {
+	if depth <= 0 || rapid.IntRange(0, 9).Draw(rt, "is-leaf") < 3 {
 		return genLeaf(rt, dom)
 	}
 	kind := rapid.IntRange(0, 9).Draw(rt, "node-kind")
@@ -945,12 +945,16 @@ func genCfg(rt *rapid.T, readably bool) Cfg {
 	return c
 }
 
+func genDepth(rt *rapid.T) int {
+	return rapid.SampledFrom([]int{0, 1, 1, 2, 2, 2, 3, 3, 4, 4}).Draw(rt, "depth")
+}
+
 func genRT(rt *rapid.T) Case {
-	return Case{Cfg: genCfg(rt, true), Obj: genNode(rt, rapid.IntRange(0, 4).Draw(rt, "depth"), 0)}
+	return Case{Cfg: genCfg(rt, true), Obj: genNode(rt, genDepth(rt), 0)}
 }
 
 func genEscape(rt *rapid.T) Case {
-	return Case{Cfg: genCfg(rt, false), Obj: genNode(rt, rapid.IntRange(0, 4).Draw(rt, "depth"), 1)}
+	return Case{Cfg: genCfg(rt, false), Obj: genNode(rt, genDepth(rt), 1)}
 }
 
 func genWire(rt *rapid.T) Case {
@@ -1018,14 +1022,27 @@ func TestC03(t *testing.T) {
 	for _, p := range []h.Prop[Case]{grid, chars, strs, margins} {
 		h.RunProp(t, p, 0)
 	}
-	h.RunProp(t, roundtrip, h.N(25000, 600000))
-	h.RunProp(t, escape, h.N(6000, 150000))
-	h.RunProp(t, wire, h.N(4000, 100000))
+	h.RunProp(t, roundtrip, h.N(250000, 1500000))
+	h.RunProp(t, escape, h.N(40000, 400000))
+	h.RunProp(t, wire, h.N(25000, 200000))
 
 	if h.C.Shard != 0 {
 		return
 	}
 	def := defaultCfg()
+	// the scalar enumerations rotate through four configurations
+	enumCfg := func(r rune) Cfg {
+		c := def
+		switch r % 4 {
+		case 1:
+			c.Pretty, c.Margin, c.Case = true, 1, "upcase"
+		case 2:
+			c.Base, c.Radix = 16, true
+		case 3:
+			c.Pretty, c.Margin, c.Case, c.RDFF = true, 40, "capitalize", "single-float"
+		}
+		return c
+	}
 
 	// every Unicode scalar as a character (bare and inside a list) and inside a string
 	h.Enumerate(t, chars, func(yield func(Case) bool) {
@@ -1037,11 +1054,11 @@ func TestC03(t *testing.T) {
 				continue
 			}
 			c := atom("chr", string(r))
-			if !yield(in(c, def)) {
+			if !yield(in(c, enumCfg(r))) {
 				return
 			}
 			if r < 0x3000 {
-				if !yield(in(list(c, c), def)) {
+				if !yield(in(list(c, c), enumCfg(r/4))) {
 					return
 				}
 			}
@@ -1055,11 +1072,11 @@ func TestC03(t *testing.T) {
 			if !h.Thorough() && r > 0x3000 && r%61 != 0 {
 				continue
 			}
-			if !yield(in(atom("str", "a"+string(r)+"b"), def)) {
+			if !yield(in(atom("str", "a"+string(r)+"b"), enumCfg(r))) {
 				return
 			}
 			if r < 0x3000 {
-				if !yield(in(atom("str", string(r)), def)) {
+				if !yield(in(list(atom("str", string(r))), enumCfg(r/4))) {
 					return
 				}
 			}
